@@ -22,6 +22,7 @@ class Device:
         self.refuse = sc.get('refuse', 0)     # number of connect attempts to refuse
         self.behaviour = sc.get('behaviour', {})   # gid -> tuple
         self.attempts = 0
+        self.bad_ident = sc.get('bad_ident', 0)
 
 
 def make_transport():
@@ -56,6 +57,7 @@ def make_transport():
                 return
             self.closed = True
             self.w.dev.open = False
+            self.w.sched.log(ev='host_close')
 
         def __del__(self):
             pass
@@ -95,6 +97,93 @@ def make_transport():
     return FakeDev
 
 
+class FakeSocket:
+    """what frappy.lib.asynconn.AsynTcp needs from a socket: the real AsynTcp (recv / flush_recv / send /
+    disconnect) runs on top of this when a scenario says tcp=True"""
+
+    def __init__(self, w, timeout):
+        self.w = w
+        self.timeout = timeout
+        self.closed = False
+
+    def settimeout(self, t):
+        self.timeout = t
+
+    def sendall(self, data):
+        s = self.w.sched
+        if s.me() is not None and not s.aborting:
+            s.yield_('dev.send')
+        if self.closed:
+            raise OSError(9, 'Bad file descriptor')
+        if self.w.dev.open:
+            self.w.dev.inbuf += data
+        s.log(ev='host_send', data=data.decode('latin-1'))
+        if s.me() is not None and not s.aborting:
+            s.yield_('dev.sent')
+
+    def readable(self):
+        return bool(self.w.dev.out) or not self.w.dev.open
+
+    def recv(self, n):
+        import socket
+        s = self.w.sched
+        dev = self.w.dev
+        if self.closed:
+            raise OSError(9, 'Bad file descriptor')
+        if s.me() is not None and not s.aborting:
+            s.yield_('dev.recv')
+        s.block(self.readable, self.timeout, 'recv')
+        if dev.out:
+            data, dev.out = dev.out[:n], dev.out[n:]
+            return data
+        if not dev.open:
+            if self.w.sc.get('reset'):
+                raise ConnectionResetError(104, 'Connection reset by peer')
+            return b''          # end of file: the peer has closed
+        raise socket.timeout('timed out')
+
+    def shutdown(self, how):
+        if self.closed:
+            raise OSError(107, 'Transport endpoint is not connected')
+
+    def close(self):
+        if not self.closed:
+            self.closed = True
+            self.w.dev.open = False
+            self.w.sched.log(ev='host_close')
+
+
+class FakeSocketModule:
+    """stands for the module `socket` inside frappy.lib.asynconn"""
+    import socket as _real
+    timeout = _real.timeout
+    gaierror = _real.gaierror
+    error = _real.error
+    SHUT_RDWR = _real.SHUT_RDWR
+
+    def __init__(self, w):
+        self.w = w
+
+    def create_connection(self, addr, timeout=None):
+        w = self.w
+        dev = w.dev
+        dev.attempts += 1
+        ok = dev.attempts > dev.refuse and not w.dead
+        w.sched.log(ev='connect_attempt', ok=ok)
+        if not ok:
+            raise ConnectionRefusedError(111, 'Connection refused')
+        dev.open = True
+        dev.inbuf = b''
+        dev.out = b''
+        return FakeSocket(w, timeout)
+
+
+class FakeSelectModule:
+    @staticmethod
+    def select(r, w, x, timeout=None):
+        return [c for c in r if c.readable()], [], []
+
+
 class World:
     def __init__(self, sc, strategy, max_steps=20000):
         global _world
@@ -106,7 +195,10 @@ class World:
         self.sched = ds.Scheduler(strategy, max_steps=max_steps, eps=0.0)
         self.dev = Device(sc)
         self.dead = False
-        self.patch = ds.Patch(fio, fa, mb)
+        extra = {}
+        if sc.get('tcp'):
+            extra['frappy.lib.asynconn'] = {'socket': FakeSocketModule(self), 'select': FakeSelectModule}
+        self.patch = ds.Patch(fio, fa, mb, extra=extra)
         self.fio = fio
         make_transport()
         _world = self
@@ -131,11 +223,26 @@ class World:
             log = LoggerStub()
 
         base = fio.BytesIO if sc.get('bytes') else fio.StringIO
-        cfg = {'description': '', 'uri': 'fakedev://x', 'timeout': {'value': sc.get('timeout', 2)},
+        cfg = {'description': '', 'uri': 'tcp://dev:4711' if sc.get('tcp') else 'fakedev://x', 'timeout': {'value': sc.get('timeout', 2)},
                'pollinterval': {'value': sc.get('pollinterval', 3)}}
         if sc.get('wait_before'):
             cfg['wait_before'] = {'value': sc['wait_before']}
+        if sc.get('ident'):     # identification exchange on every connect: command 90, reply must be that of 90
+            cfg['identification'] = [('C 9 0', 'R 9 0 !')] if sc.get('bytes') else [('C90', 'R90$')]
+            if 'retry_first_idn' in sc and not sc.get('bytes'):
+                cfg['retry_first_idn'] = sc['retry_first_idn']
         io = base('io', LoggerStub('io'), cfg, Srv())
+        orig_ident = io.checkHWIdent
+
+        def checkHWIdent():
+            try:
+                orig_ident()
+            except ds.SchedAbort:
+                raise
+            except BaseException:
+                w.sched.log(ev='ident_failed')
+                raise
+        io.checkHWIdent = checkHWIdent
         io.earlyInit()
         io.initModule()
         self.io = io
@@ -180,6 +287,9 @@ def run_scenario(sc, strategy, max_steps=20000):
             beh = dev.behaviour.get(gid, ('normal', 1))
             kind = beh[0]
             rep = reply_bytes(gid)
+            if gid == 90 and dev.bad_ident > 0:      # the identification is answered wrongly the first k times
+                dev.bad_ident -= 1
+                rep = reply_bytes(91)
             if kind == 'normal':
                 n = beh[1]
                 size = max(1, len(rep) // n)
@@ -203,11 +313,11 @@ def run_scenario(sc, strategy, max_steps=20000):
                 if dev.open:
                     dev.out += (b'G00!' if is_bytes else b'junk\n')
                     s.log(ev='unsolicited', gid=0)
-            elif kind == 'silent':
+            elif kind in ('silent', 'noreply'):      # noreply: a command the device legitimately does not answer
                 pass
             elif kind == 'trickle':      # a byte every half second, never a complete frame
                 for _ in range(int(sc.get('horizon', 40) * 2)):
-                    s.sleep(0.5)
+                    s.sleep(beh[1] if len(beh) > 1 else 0.5)
                     if not dev.open:
                         break
                     dev.out += b'x'
@@ -222,16 +332,30 @@ def run_scenario(sc, strategy, max_steps=20000):
             if kind == 'sleep':
                 s.sleep(txn[1])
                 continue
+            if kind == 'disc':       # the user switches the connection off (it reconnects by itself)
+                s.log(ev='user_disc')
+                try:
+                    io.write_is_connected(False)
+                except ds.SchedAbort:
+                    raise
+                except BaseException as e:  # noqa
+                    s.log(ev='user_disc_failed', msg=repr(e)[:80])
+                continue
             if kind == 'comm':
-                gids, delays = [txn[1]], [0]
+                gids, delays, exp = [txn[1]], [0], [True]
             elif kind == 'write':
-                gids, delays = [txn[1]], [0]
+                gids, delays, exp = [txn[1]], [0], [False]
+            elif kind == 'multi_str':
+                gids, delays, exp = list(txn[1]), [0] * len(txn[1]), [True] * len(txn[1])
             else:
                 gids = [g for g, _, _ in txn[1]]
                 delays = [int(round(d * 10)) for _, _, d in txn[1]]
-            s.log(ev='call', i=i, kind=kind, gids=gids, delays=delays)
+                exp = [True if is_bytes else bool(e) for _, e, _ in txn[1]]
+            s.log(ev='call', i=i, kind=kind, gids=gids, delays=delays, exp=exp)
             try:
-                if kind == 'comm':
+                if kind == 'multi_str':
+                    r = io.multicomm([cmd_text(g) for g in txn[1]])
+                elif kind == 'comm':
                     r = [io.communicate(b'C%02d' % txn[1], RL)] if is_bytes else [io.communicate(cmd_text(txn[1]))]
                 elif kind == 'write':
                     io.writeline(cmd_text(txn[1]))
